@@ -63,8 +63,8 @@ def run(ctx):
     lk = ctx.linker
     nfun = 0
     for mod in ctx.repo.package_modules():
-        def on_error(rule, fname, node, msg, extracted="", expected="", _m=mod):
-            res.violation(rule, _m, fname, node, msg, extracted, expected)
+        def on_error(rule, fname, node, msg, extracted="", expected="", _m=mod, construct=None):
+            res.violation(rule, _m, fname, node, msg, extracted, expected, construct=construct)
 
         def on_ok(rule, site, _m=mod):
             res.ok(rule, site)
@@ -91,7 +91,7 @@ def run(ctx):
     # client call sites (demos/examples/test): notes only
     if ctx.thorough:
         for cm in ctx.repo.clients.values():
-            def c_err(rule, fname, node, msg, extracted="", expected="", _m=cm):
+            def c_err(rule, fname, node, msg, extracted="", expected="", _m=cm, construct=None):
                 res.note(f"client {_m.relpath}:{getattr(node, 'lineno', 0)} {rule}: {msg}")
 
             def c_ok(rule, site):
@@ -100,6 +100,8 @@ def run(ctx):
                 lk.check_module(cm, c_err, c_ok)
             except deps.DepError as e:
                 res.note(f"client {cm.relpath}: {e}")
+            except Exception as e:      # client files may use constructs outside the analysed subset (try/with/...)
+                res.note(f"client {cm.relpath}: not analysed ({type(e).__name__}: {e})")
     _run_pdy(ctx)
     res.not_decided += [
         "layout (C/F/view) and dtype (int64/float64) independence of results",
